@@ -131,6 +131,12 @@ class C10StopRestart(Oracle):
         self.run_id_at_stop = None
         self.pending_restart_check = None
         self.prev_rid = None
+        self.run_ids: list[str] = []
+        self.await_first: int | None = None      # index into w.effects at the start of a further run
+        first = next((c for _, c in plan["method"] if c.strip() and not c.strip().startswith("#")), "")
+        m = re.fullmatch(r"Mark: (\S+)", first)       # un-indented, no threshold: the first thing any run does
+        self.first_mark = m.group(1) if m else None
+        self.no_edits = not any(op[0] in ("edit",) for op in plan["ops"])
 
     def before_tick(self, w, inc):
         self.prev_rid = w.tag("Run Id")
@@ -174,7 +180,35 @@ class C10StopRestart(Oracle):
 
     def after_tick(self, w, inc):
         evs = w.events[self.ev_pos:]
+        for e in evs:
+            if e[1] != "start":
+                continue
+            rid = e[2]
+            if not rid or rid in self.run_ids:
+                self.v("C10", "C10.run_id_not_new", "Run Id", f"run started in tick {w.tick_no} with run id {rid!r}; "
+                       f"earlier runs of this engine: {self.run_ids}")
+            if self.run_ids and self.no_edits and "edit" not in w.ctx_flags:
+                # a further run (after Restart, or Stop and Start) of the same method
+                ms = w.method_state()
+                left = sorted(set(ms.executed_line_ids) | set(ms.started_line_ids) | set(ms.failed_line_ids))
+                if left:
+                    self.v("C10", "C10.method_state_not_reset_at_run_start", "method_state",
+                           f"the run started in tick {w.tick_no} begins with lines {left} already started/executed/failed")
+                if self.first_mark is not None:
+                    self.await_first = len(w.effects)
+            self.run_ids.append(rid)
+        if self.await_first is not None:
+            marks = [fx for fx in w.effects[self.await_first:] if fx[1] == "mark"]
+            if marks:
+                if marks[0][2] != self.first_mark:
+                    self.v("C10", "C10.new_run_did_not_begin_at_first_line", "Mark",
+                           f"first Mark of the run started after Stop/Restart is {marks[0][2]!r} (tick {marks[0][0]}), "
+                           f"the method's first line is 'Mark: {self.first_mark}'")
+                else:
+                    self.res.probe("new_run_began_at_first_line")
+                self.await_first = None
         if any(e[1] == "stop" for e in evs):
+            self.await_first = None
             if w.uod.command_instances:
                 kind = "C10.command_orphaned_by_live_edit" if self.edited_in_run else \
                     "C10.command_instance_after_stop" + w.ctx()
@@ -1033,7 +1067,11 @@ class C12CancelForce(Oracle):
                     # method, and the user never sent the same command in this run
                     entered = [e for e in w.events if e[1] == "runstate" and e[2] == p["base"]]
                     by_user = any(r[1] == "control" and r[2] == p["base"] for r in w.requests)
-                    if flag and not w.engine.has_error_state() and len(entered) == 1 and not by_user:
+                    try:        # two instructions of one kind share a single engine command (and one run-state event)
+                        same_kind = sum(1 for it in w.runlog().items if it.name.split(":")[0].strip() == p["base"])
+                    except Exception:
+                        same_kind = 2
+                    if flag and not w.engine.has_error_state() and len(entered) == 1 and not by_user and same_kind == 1:
                         in_effect = p["flags_at"][2] if p["base"] == "Pause" else p["flags_at"][1]
                         kind = "C12.cancelled_timed_command_still_active" if in_effect else \
                             "C12.cancel_before_execution_ineffective"
